@@ -426,7 +426,7 @@ func parseFuncHeader(c *Contract, hdr string) error {
 		if ptr {
 			c.Key = pk + ".(*" + base + ")." + name
 		} else {
-			c.Key = pk + "." + base + "." + name
+			c.Key = pk + ".(" + base + ")." + name
 		}
 	} else {
 		c.Key = pk + "." + name
